@@ -151,6 +151,7 @@ class Conn(object):
         self.pending = None   # [step, remaining delay] decided but not yet arrived
         self.owners = []      # weakrefs to socket objects owning the descriptor
         self.delivered = 0    # bytes handed to the library
+        self.rcvlowat = 1
 
     def buffered(self):
         return bool(self.inbox) or bool(self.record)
@@ -179,6 +180,8 @@ class FakeSocket(object):
     # -- no-fault bookkeeping calls
     def setsockopt(self, *a):
         self.w.log(self.conn, 'setsockopt', a)
+        if len(a) == 3 and a[0] == _real_socket.SOL_SOCKET and a[1] == getattr(_real_socket, 'SO_RCVLOWAT', -1):
+            self.conn.rcvlowat = int(a[2])      # the kernel reports readable only with that many bytes queued
 
     def settimeout(self, t):
         self.w.log(self.conn, 'settimeout', t)
@@ -306,7 +309,10 @@ class FakeSocketModule(types.ModuleType):
     def __init__(self):
         super(FakeSocketModule, self).__init__('socket')
         for k in ('error', 'gaierror', 'herror', 'timeout', 'AF_UNSPEC', 'AF_INET', 'AF_INET6', 'SOCK_STREAM',
-                  'IPPROTO_TCP', 'TCP_NODELAY', 'SHUT_RDWR', 'SHUT_RD', 'SHUT_WR', 'SOL_SOCKET', 'SO_KEEPALIVE'):
+                  'IPPROTO_TCP', 'TCP_NODELAY', 'SHUT_RDWR', 'SHUT_RD', 'SHUT_WR', 'SOL_SOCKET', 'SO_KEEPALIVE', 'SO_RCVLOWAT',
+                  'SO_RCVBUF', 'SO_SNDBUF', 'SO_REUSEADDR', 'SO_LINGER', 'SOL_TCP', 'TCP_KEEPIDLE', 'TCP_KEEPINTVL', 'TCP_KEEPCNT'):
+            if not hasattr(_real_socket, k):
+                continue
             setattr(self, k, getattr(_real_socket, k))
 
     def getaddrinfo(self, host, port, family=0, type=0, proto=0, flags=0):
@@ -663,6 +669,7 @@ class World(object):
         self.calls = []         # every socket-level call incl. close/shutdown
         self.faults = {}        # op index -> 'oserror' | 'valueerror' | 'eof'
         self.resolve_fault = None
+        self.on_block = None
         self.fault_hook = None     # callable(op index, op name) -> fault kind | None  (engine A draws it as a choice)
         self.connect_faults = {}   # k-th connect -> exception
         self.socket_faults = {}    # k-th socket() -> exception
@@ -838,7 +845,9 @@ class World(object):
         before = conn.buffered()
         # readiness is a property of the *kernel* socket: bytes already decrypted inside the TLS layer (conn.record)
         # do not make the descriptor readable -- that is what SelectorBase.wait's pending() short-cut is for
-        if conn.closed or conn.inbox or conn.eof or conn.err is not None:
+        kernel_bytes = sum(len(x) for x in conn.inbox if isinstance(x, bytes))
+        ready = any(not isinstance(x, bytes) for x in conn.inbox) or kernel_bytes >= conn.rcvlowat
+        if conn.closed or ready or conn.eof or conn.err is not None:
             self.wait_log.append((t0, timeout, True, before, len(self.events)))
             return True
         step, remaining = self._next_step(conn)
@@ -864,6 +873,8 @@ class World(object):
 
     def block_until_readable(self, conn):
         """A blocking recv() with nothing buffered (proxy phase): time passes until the next step."""
+        if self.on_block is not None:
+            self.on_block(conn)       # what another thread does while this one is blocked in recv()
         self.waits += 1
         if self.waits > self.max_waits:
             raise Horizon('more than %d blocking reads' % self.max_waits)
